@@ -3,7 +3,7 @@
 From Coq Require Import List Arith NArith Bool Lia.
 Import ListNotations.
 Require Import MRB.Base.Ring MRB.Base.ListAux MRB.Model.Types MRB.Model.Seq MRB.Spec.Pipe.
-Require Import MRB.Proofs.Rel MRB.Proofs.TapeFacts MRB.Proofs.Refine MRB.Proofs.SpecFacts MRB.Props.Examples.
+Require Import MRB.Proofs.Rel MRB.Proofs.TapeFacts MRB.Proofs.Refine MRB.Proofs.SpecFacts MRB.Proofs.Fifo MRB.Props.Examples.
 
 Theorem C01_refines :
   forall (h : list Types.op) (m : Seq.mstate) (a : Pipe.pipe), Rel.Rel m a -> let '(a', ys, ok) := Pipe.srun a h in ok = true -> let '(m', xs) := Seq.run m h in xs = ys /\ Rel.Rel m' a'.
@@ -44,4 +44,18 @@ Theorem C01_push_position :
   forall (a : Pipe.pipe) (v : BinNums.N) (a' : Pipe.pipe) (evs : list Types.lev), Pipe.a_attached Types.P a = true -> Pipe.sstep a (Types.Push v) = (a', (Types.OOk, evs)) -> Types.tP (Pipe.lpos a) < length (Pipe.tape a) -> List.nth (Types.tP (Pipe.lpos a)) (Pipe.tape a') BinNums.N0 = v /\ Types.tP (Pipe.lpos a') = Types.tP (Pipe.lpos a) + 1.
 Proof. exact SpecFacts.C01_push_position. Qed.
 Print Assumptions C01_push_position.
+
+(** END-TO-END FIFO (two-stage pipeline, plain items, push / push_slice / pop / copy_item / copy_slice / peeks): what the
+    consumer has obtained, followed by what is still in the buffer, is exactly what was in flight at the start followed by the
+    accepted pushes - nothing lost, duplicated, reordered or invented; from a fresh buffer the consumed sequence is a prefix
+    of the accepted one; at most len-1 items are in flight *)
+Theorem C01_fifo :
+  forall (m : Seq.mstate) (a : Pipe.pipe) (h : list Types.op), Rel.Rel m a -> Pipe.shasW a = false -> Pipe.sowned a = false -> Types.tP (Pipe.sdet a) = false -> Types.tC (Pipe.sdet a) = false -> List.forallb fifo_op h = true -> snd (Pipe.srun a h) = true /\ (pending a ++ accepted a h)%list = (consumed a h ++ pending (fst (fst (Pipe.srun a h))))%list /\ length (pending (fst (fst (Pipe.srun a h)))) <= Pipe.slen a - 1.
+Proof. exact Fifo.FIFO_rel. Qed.
+Print Assumptions C01_fifo.
+
+Theorem C01_fifo_from_init :
+  forall (c : Types.config) (a : Pipe.pipe) (h : list Types.op), Pipe.a_init c = Some a -> Types.c_worker c = false -> Types.c_owned c = false -> List.forallb fifo_op h = true -> snd (Pipe.srun a h) = true /\ accepted a h = (consumed a h ++ pending (fst (fst (Pipe.srun a h))))%list /\ (exists rest : list BinNums.N, accepted a h = (consumed a h ++ rest)%list) /\ length (pending (fst (fst (Pipe.srun a h)))) <= length (Types.c_init c) - 1.
+Proof. exact Fifo.FIFO_init. Qed.
+Print Assumptions C01_fifo_from_init.
 
